@@ -48,7 +48,9 @@ type FuzzCase struct {
 	// App (frames): what the application does around its reads. Bit 0: it
 	// restores the default handlers with Set...Handler(nil) before reading;
 	// bit 1: it reads the connection as one stream through JoinMessages with a
-	// terminator, and reads that stream a few more times after its first error.
+	// terminator, and reads that stream a few more times after its first error;
+	// bit 2: it has sent its own close frame before it reads; bit 3: every
+	// transport write fails with a plain error.
 	App int `json:"app,omitempty"`
 	// DialOpts (dialreply): bit 0 a TLSClientConfig is set (unused for ws://),
 	// bit 1 a cookie Jar, bit 2 a HandshakeTimeout, bit 3 Dial goes through
@@ -186,6 +188,14 @@ func fuzzFrames(c FuzzCase) (bool, error) {
 			observe("frames: %d automatic replies (pong, close) were written with no write deadline armed: a peer that sends them and never reads blocks the reading application for ever", tr.WritesNoDeadline)
 		}
 	}()
+	if c.App&4 != 0 {
+		// the application started the closing handshake itself and keeps reading
+		conn.WriteControl(websocket.CloseMessage, websocket.FormatCloseMessage(1000, ""), time.Now().Add(time.Minute))
+	}
+	if c.App&8 != 0 {
+		// nothing can be written any more (plain, non-net error)
+		tr.SetWriteFault(&xport.WriteFault{K: 0, Kind: xport.FaultError})
+	}
 	if c.App&1 != 0 {
 		conn.SetPingHandler(nil)
 		conn.SetPongHandler(nil)
@@ -612,9 +622,21 @@ func genFuzzCase(t *rapid.T) FuzzCase {
 			rawKind = 98
 		}
 		if rapid.IntRange(0, 3).Draw(t, "app") == 0 {
-			c.App = rapid.IntRange(1, 3).Draw(t, "app_bits")
+			c.App = rapid.IntRange(1, 15).Draw(t, "app_bits")
+		}
+		if rapid.IntRange(0, 11).Draw(t, "closecodes") == 0 {
+			rawKind = 97
 		}
 		switch rawKind {
+		case 97:
+			// a ping, a message and a close frame whose status code is drawn from
+			// every range boundary of the registry (and beyond)
+			code := rapid.SampledFrom([]int{0, 1, 999, 1000, 1001, 1002, 1003, 1004, 1005, 1006, 1007, 1008, 1009, 1010, 1011, 1012, 1013, 1014, 1015, 1016, 1099, 2999, 3000, 3999, 4000, 4999, 5000, 32767, 32768, 65535}).Draw(t, "close_code")
+			reason := rapid.SampledFrom([]string{"", "bye", "\xff\xfe", string(make([]byte, 123))}).Draw(t, "close_reason")
+			d := wsref.AppendFrame(nil, wsref.Frame{Fin: true, Opcode: wsref.OpPing, Masked: c.Server, Key: [4]byte{1, 1, 1, 1}, Payload: []byte("p")})
+			d = wsref.AppendFrame(d, wsref.Frame{Fin: true, Opcode: wsref.OpText, Masked: c.Server, Key: [4]byte{2, 2, 2, 2}, Payload: []byte("hi")})
+			d = wsref.AppendFrame(d, wsref.Frame{Fin: true, Opcode: wsref.OpClose, Masked: c.Server, Key: [4]byte{3, 3, 3, 3}, Payload: wsref.CloseBody(code, reason)})
+			c.Data = d
 		case 98:
 			// one message of very many empty fragments (optionally with empty pongs
 			// in between): a few bytes per frame, no payload at all
